@@ -21,6 +21,11 @@ TOL = 1e-9
 PTS = np.array([[0.0, 0.0, 0.0], [1.0, 0.0, 0.0], [0.0, 1.0, 0.0], [0.0, 0.0, 1.0], [0.31, -1.27, 2.53], [-7.5, 0.125, 0.9]])
 
 
+def rt(text):
+    """the same text as a string object created at run time (read from a file, a config, .lower() ...): equal to the literal, not identical to it"""
+    return "".join(list(text))
+
+
 def rotations():
     from mc.ref.mol import rot
 
@@ -105,10 +110,10 @@ def grid_worker(part, chunk, unit_rad):
         part.ev()
         part.tr(2)
         try:
-            u1 = UnitCell.from_lengths_and_angles([a, b, c], [al, be, ga], unit="degrees")
+            u1 = UnitCell.from_lengths_and_angles([a, b, c], [al, be, ga], unit="degrees" if (int(a * 10) + int(al)) % 2 else rt("degrees"))
             ok = check_cell(part, u1, params, "lengths+angles(degrees)", case)
             if unit_rad:
-                u1r = UnitCell.from_lengths_and_angles([a, b, c], list(np.radians([al, be, ga])), unit="radians")
+                u1r = UnitCell.from_lengths_and_angles([a, b, c], list(np.radians([al, be, ga])), unit="radians" if (int(b * 10) + int(be)) % 2 else rt("radians"))
                 check_cell(part, u1r, params, "lengths+angles(radians)", case)
             # vector route
             M = lattice.cell_matrix(*params)
@@ -159,6 +164,8 @@ def named_worker(part, _):
         variants = [("default-radians", {}, True)] if units else [("plain", {}, False)]
         if units:
             variants.append(("degrees", {"unit": "degrees"}, False))
+            variants.append(("degrees-runtime-string", {"unit": rt("degrees")}, False))
+            variants.append(("radians-runtime-string", {"unit": rt("radians")}, True))
         for vname, kw, rad in variants:
             call = list(args)
             if units and rad:
